@@ -333,16 +333,20 @@ inline bool exec(Env& e, const Op& op) {
     if (needM()) e.pushM(e.m(A(0)).Translate(vec3((double)(A(1) % 3), (double)(A(2) % 3), (double)(A(3) % 3))));
   } else if (n == "scale") {
     if (needM()) e.pushM(e.m(A(0)).Scale(vec3(U(A(1), .5, 1.5), U(A(2), .5, 1.5), U(A(3), .5, 1.5))));
-  } else if (n == "hugescale") {
+  } else if (n == "hugescale" || n == "rawhuge") {
     // a finite transform whose result overflows: the library empties the result (Impl::Transform -> MakeEmpty)
     if (needM()) {
       const int k = (int)((A(1) % 3 + 3) % 3);
-      if (k == 0) {
-        // finite matrix, x' = 1e308 * (x + y + z + 1): overflows for almost every vertex
-        e.pushM(e.m(A(0)).Transform(mat3x4(vec3(1e308, 0, 0), vec3(1e308, 1, 0), vec3(1e308, 0, 1), vec3(1e308, 0, 0))));
-      } else {
-        e.pushM(e.m(A(0)).Scale(k == 1 ? vec3(1e200, 1e200, 1) : vec3(-1.7e308, 1.7e308, 1.7e308)));
-      }
+      // k == 0: finite matrix, x' = 1e308 * (x + y + z + 1): overflows for almost every vertex
+      Manifold r = k == 0 ? e.m(A(0)).Transform(mat3x4(vec3(1e308, 0, 0), vec3(1e308, 1, 0), vec3(1e308, 0, 1), vec3(1e308, 0, 0)))
+                          : e.m(A(0)).Scale(k == 1 ? vec3(1e200, 1e200, 1) : vec3(-1.7e308, 1.7e308, 1.7e308));
+      // A result that stayed finite (coordinates up to 1e308) is not kept by "hugescale": arithmetic on such
+      // coordinates overflows inside Booleans and Slice (recorded as a known finding of C09, which probes it
+      // with "rawhuge"); the generated programs are about the overflow -> MakeEmpty path.
+      if (n == "rawhuge" || r.IsEmpty())
+        e.pushM(r);
+      else
+        e.note = "huge_finite_discarded";
     }
   } else if (n == "scratch") {
     // an expression over pool objects that is built and destroyed without ever being evaluated
